@@ -7,9 +7,9 @@
     Both are functions of the same node forest and of shared oracles with no assumed behaviour.
 
     FULL STATEMENT (all forests, all oracles):  strict_blocks F = false -> prom_accepts F = true.
-    It is FALSE of the faithful models and of the real pint/Prometheus pair: four machine-checked refutations
+    It is FALSE of the faithful models and of the real pint/Prometheus pair: five machine-checked refutations
     below, each with a witness file that the real pint passes and the real rulefmt.Parse refuses (known findings
-    C01-merge-not-alias, C01-tag-kind, C01-null-tag-text, C01-group-labels-alias).  Three further classes (null record/alert/expr, group without a name, limit
+    C01-merge-not-alias, C01-tag-kind, C01-null-tag-text, C01-group-labels-alias, C01-double-merge).  Three further classes (null record/alert/expr, group without a name, limit
     that is no Go int) were repaired in pint (d65cbbf, cc77cdd, a6b0afc): their guards and the H_int hypothesis are gone
     from the theorem, and their former witnesses are now machine-checked to be BLOCKED by the pint model
     (C01_fixed_witnesses_blocked).
@@ -21,8 +21,11 @@
       H_empty  the empty string is not a label name, is a label value and is a valid template,
     and every single document satisfying [guards_doc] — the documented fragment:
       - one root; below it only mappings tagged !!map, sequences tagged !!seq and scalars with a scalar tag other
-        than !!merge: no merge keys, no explicit collection tags (C01-merge-not-alias, C01-tag-kind),
-        no null-tagged mapping keys, null-tagged scalars spell a null;
+        than !!merge: no explicit collection tags (C01-tag-kind), no null-tagged mapping keys, null-tagged scalars spell a null;
+      - a rule may carry ONE MERGE KEY `<<: *anchor` ([merge_rule_guard]): the anchor is a plain alias-free mapping with distinct,
+        non-empty keys other than "<<"; pint splices the pairs the rule does not set itself, Prometheus merges after the explicit
+        keys — the same fields as a permutation ([rule_sound_merge]).  Merge keys elsewhere, several merge keys, and `<<` of a
+        non-alias (known finding C01-merge-not-alias) stay outside;
       - yaml ALIASES are inside the fragment where they are the value of a rule key (`expr: *e`, `for: *d`, `labels: *l`,
         `annotations: *a`) or a value inside a rule's labels / annotations mapping (`severity: *s`), pointing at plain nodes
         ([rule_guard], [alias_to]: an alias node as yaml.v3 returns it — no content, the ShortTag of its target, a non-empty
@@ -32,11 +35,12 @@
     The same oracle [int_ok] (yaml.Node.Decode into a Go int) is used by pint's limit check and by the loader.
     Outside the fragment (aliases, merge keys) the property is searched by the implementation-level oracle only.
 
-    GLUE (C01_mask_id): on a file without pint control comments the masking reader (Model/Reader.v) is the identity, so
-    pint's yaml.v3 and Prometheus' yaml.v3 decode the same bytes (same syntax errors, same forest). *)
+    GLUE (C01_mask_id): on a file without pint control comments the masking reader (Model/Reader.v) masks nothing and hands
+    yaml.v3 the file's bytes with CR LF written as LF; that yaml.v3 then returns the forest rulefmt.Parse starts from is
+    re-checked on every case (same syntax errors, same forest). *)
 From Coq Require Import List String Ascii Arith Bool NArith.
 From PintV Require Import Common.Bytes Model.Yaml Model.Parser Model.Routing Model.PromLoader Model.Reader Model.Comments
-     Proofs.C19_relaxed Proofs.C01_prom Proofs.C01_rule Proofs.C01_group Proofs.C01_mask Proofs.C01_witness Proofs.C01_tables Gen.C01 Run.C19 Run.C01.
+     Proofs.C19_relaxed Proofs.C01_prom Proofs.C01_rule Proofs.C01_group Proofs.C01_merge Proofs.C01_mask Proofs.C01_witness Proofs.C01_tables Gen.C01 Run.C19 Run.C01.
 Import ListNotations.
 Open Scope string_scope.
 Open Scope list_scope.
@@ -56,6 +60,24 @@ Theorem C01_sound_partial :
       prom_accepts str_ok int_ok null_ok expr_ok dur_ok dur_zero metric_ok lname_ok lvalue_ok tmpl_prom (map fst ds) = true.
 Proof. intros. eapply stream_sound; eauto. Qed.
 Print Assumptions C01_sound_partial.
+
+(** The rule-level core for a rule with one merge key `<<: *anchor`. *)
+Theorem C01_rule_sound_merge :
+  forall (plines : list string -> node -> nat -> nat * nat)
+         (metric_ok lname_ok lvalue_ok dur_ok expr_ok tmpl_pint tmpl_prom dur_zero : string -> bool)
+         (str_ok null_ok : node -> bool),
+    (forall n, n_kind n = KScalar -> n_tag n <> nullTag -> str_ok n = true) ->
+    (forall n, n_kind n = KScalar -> n_tag n = nullTag -> null_text (n_value n) -> null_ok n = true) ->
+    (forall s, tmpl_pint s = true -> tmpl_prom s = true) ->
+    lname_ok "" = false -> lvalue_ok "" = true -> tmpl_prom "" = true ->
+    forall lines rn glabels pre mk mx post t,
+      merge_rule_guard rn pre mk mx post t ->
+      r_error (parse_rule_strict plines metric_ok lname_ok lvalue_ok lines rn) = None ->
+      rule_blocks expr_ok dur_ok tmpl_pint glabels (parse_rule_strict plines metric_ok lname_ok lvalue_ok lines rn) = false ->
+      exists pr, dec_rule str_ok null_ok dur_ok rn = DOk pr /\
+                 rule_valid expr_ok dur_zero metric_ok lname_ok lvalue_ok tmpl_prom pr = true.
+Proof. intros. eapply rule_sound_merge; eauto. Qed.
+Print Assumptions C01_rule_sound_merge.
 
 (** The alias-free fragment of the earlier rounds is an instance of the guard. *)
 Theorem C01_plain_fragment_inside :
@@ -82,14 +104,16 @@ Theorem C01_rule_sound :
 Proof. intros. eapply rule_sound; eauto. Qed.
 Print Assumptions C01_rule_sound.
 
-(** Glue: without pint control comments the masking reader hands yaml.v3 exactly the bytes of the file (and records its
-    lines, no comments, no diagnostics) — what rulefmt.Parse is given. *)
+(** Glue: without pint control comments the masking reader masks nothing (output = the file's bytes, its lines, no comments,
+    no diagnostics) and yaml.v3 is handed those bytes with CR LF line ends written as LF (fix 670b316) — the document
+    rulefmt.Parse is given, up to the spelling of line breaks (forest equality is re-checked per case). *)
 Theorem C01_mask_id :
   forall (tp : string -> option BinNums.Z) (f : string),
     (forall n buf, In buf (chunks f) -> Comments.parse tp n buf = []) ->
     r_out (reader_impl tp f) = f /\ r_lines (reader_impl tp f) = map strip_nl (chunks f) /\
-    r_comments (reader_impl tp f) = [] /\ r_diags (reader_impl tp f) = [].
-Proof. intros tp f H. destruct (mask_id tp f H) as (A & B & C & D & _). auto. Qed.
+    r_comments (reader_impl tp f) = [] /\ r_diags (reader_impl tp f) = [] /\
+    r_yaml (reader_impl tp f) = crlf_to_lf f.
+Proof. intros tp f H. destruct (mask_id tp f H) as (A & B & C & D & _). pose proof (mask_id_yaml tp f H). auto. Qed.
 Print Assumptions C01_mask_id.
 
 (** The finite key tables both sides hinge on are those of the current sources (Gen/C01.v is regenerated from strict.go,
@@ -176,6 +200,20 @@ Definition w_group_labels_alias : node :=
 Theorem C01_sound_refuted_group_labels_alias : refutes w_group_labels_alias.
 Proof. vm_compute. repeat split. Qed.
 Print Assumptions C01_sound_refuted_group_labels_alias.
+Definition w_dm_a : node := Mp "!!map" 6 13 65924 [Sc "!!str" "for" 7 7 439; Sc "!!str" "5m" 7 12 447].
+Definition w_dm_b : node := Mp "!!map" 8 18 65924 [Sc "!!str" "keep_firing_for" 9 7 439; Sc "!!str" "1m" 9 24 447].
+Definition w_double_merge : node :=
+  Dc 1 1 388 [Mp "!!map" 1 1 388 [Sc "!!str" "groups" 1 1 439; Sq "!!seq" 2 1 388 [Mp "!!map" 2 3 388
+    [Sc "!!str" "name" 2 3 439; Sc "!!str" "g" 2 9 439; Sc "!!str" "rules" 3 3 439;
+     Sq "!!seq" 4 3 388
+       [Mp "!!map" 4 5 388 [Sc "!!str" "alert" 4 5 439; Sc "!!str" "A" 4 12 439; Sc "!!str" "expr" 5 5 439; Sc "!!str" "up" 5 11 439;
+                            Sc "!!str" "labels" 6 5 439; w_dm_a; Sc "!!str" "annotations" 8 5 439; w_dm_b];
+        Mp "!!map" 10 5 388 [Sc "!!merge" "<<" 10 5 423; Node KAlias "!!map" "a" 10 9 407 [] (Some w_dm_a) None;
+                             Sc "!!merge" "<<" 11 5 423; Node KAlias "!!map" "b" 11 9 407 [] (Some w_dm_b) None;
+                             Sc "!!str" "alert" 12 5 439; Sc "!!str" "C" 12 12 439; Sc "!!str" "expr" 13 5 439; Sc "!!str" "up" 13 11 439]]]]]].
+Theorem C01_sound_refuted_double_merge : refutes w_double_merge.
+Proof. vm_compute. repeat split. Qed.
+Print Assumptions C01_sound_refuted_double_merge.
 Theorem C01_sound_refuted_merge_not_alias : refutes w_merge.
 Proof. vm_compute. repeat split. Qed.
 Print Assumptions C01_sound_refuted_merge_not_alias.
@@ -205,3 +243,8 @@ Proof. vm_compute. repeat split. Qed.
 Example C01_nonvacuous_alias :
   guards_doc w_alias /\ model_blocks (mk w_alias 0) = false /\ model_prom (mk w_alias 0) = true.
 Proof. split; [exact w_alias_guard|]. vm_compute. split; reflexivity. Qed.
+
+(** ... and with a merge key: corpus/C01/merge_alias.yaml (`- &base {...}`, `- <<: *base` overriding alert and for). *)
+Example C01_nonvacuous_merge :
+  guards_doc w_merge_ok /\ model_blocks (mk w_merge_ok 0) = false /\ model_prom (mk w_merge_ok 0) = true.
+Proof. split; [exact w_merge_guard|]. vm_compute. split; reflexivity. Qed.
